@@ -504,6 +504,52 @@ pub fn run(tier: Tier) -> i32 {
         let sp: Vec<(Vec<String>, Vec<u8>)> = cs.iter().enumerate().filter(|(i, c)| i % 5 == 0 && c.spectrum < FIRST_BIG).map(|(_, c)| (combined_args(c), text_of(&spectra()[c.spectrum]).into_bytes())).collect();
         super::spelling_part(&mut rep, "C13", "every fifth option combination of the main part", &sp, &scratch);
     }
+    // the spectrum stored as an npy file of every element type: view reproduces the values the file
+    // holds, as it does for the same values given as text
+    {
+        let mut nj: Vec<(Vec<usize>, &'static str, u8)> = Vec::new();
+        for shape in [vec![9usize], vec![3, 5], vec![3, 3, 3]] {
+            for (k, descr) in super::NPY_DESCRS.into_iter().enumerate() {
+                nj.push((shape.clone(), descr, [1u8, 2, 3][(k + shape.len()) % 3]));
+            }
+        }
+        let res = par_map(nj.len(), |i| {
+            let (shape, descr, version) = &nj[i];
+            let (npy, text) = super::typed_npy_and_text(shape, descr, *version);
+            let mut bad = Vec::new();
+            for opts in [vec!["--precision", "17"], vec!["--precision", "17", "--normalize"], vec!["-O", "npy"]] {
+                let mut a = vec!["view"];
+                a.extend(opts);
+                let x = run_sfs(&a, Stdin::Bytes(text.as_bytes()), &scratch);
+                let y = run_sfs(&a, Stdin::Bytes(&npy), &scratch);
+                if !(x.ok() && y.ok() && x.stdout == y.stdout) {
+                    bad.push(format!("{a:?}: {} / {} bytes on the npy file, {} / {} bytes on the text", y.status_str(), y.stdout.len(), x.status_str(), x.stdout.len()));
+                }
+            }
+            if bad.is_empty() {
+                None
+            } else {
+                Some((
+                    format!("C13|cli|npy-input-viewed-differently|{}", descr.trim_start_matches(['<', '>', '|'])),
+                    format!("shape {shape:?} stored as {descr} (format {version}.0): {}", bad.join("; ")),
+                    J::obj([("kind", J::s("c13-npy-input")), ("shape", J::usizes(shape)), ("descr", J::s(*descr)), ("version", J::Int(*version as i64))]),
+                ))
+            }
+        });
+        for v in res.into_iter().flatten() {
+            rep.violation(v.0, v.1, v.2);
+        }
+        rep.part(Part {
+            name: "cli: view of npy files of every element type".into(),
+            evaluations: 3 * nj.len() as u64,
+            nontrivial: 3 * nj.len() as u64,
+            note: "spectra with 1..3 axes stored as f8, f4 and the signed and unsigned integers of 1, 2, 4 and 8 bytes, little- and big-endian, format 1.0 / 2.0 / 3.0 in turn: view at 17 decimals, view --normalize and view -O npy give what they give on the same values as text".into(),
+            exhaustive: true,
+            extra: vec![],
+        });
+        let sp: Vec<(RefArray, usize)> = vec![(spectra()[1].clone(), 6), (spectra()[2].clone(), 12), (RefArray::from_fn(&[40, 30], |f, _| (f % 13) as f64 / 7.0), 6)];
+        super::plain_streams_part(&mut rep, "C13", "three spectra as view writes them (text at 6 and 12 decimals, npy; the last one of 1 200 entries)", &sp);
+    }
     // neighbouring entries that are nearly, but not exactly, equal - printed with enough decimals to
     // tell them apart: view (alone, masked, normalized) gives every entry its own value
     {
